@@ -6,7 +6,7 @@ import ast
 from ..cfg import EXIT
 from ..dataflow import cone, get_defuse, stores
 from ..engines import cache, dimrun, guard
-from ..frontend import src, walk_no_nested
+from ..frontend import const_value, src, walk_no_nested
 
 EXPLANATION = (
     "Decides for every data set at once the structural guards that keep trained parameters finite and valid: (GUARD.div) every "
@@ -86,7 +86,31 @@ def check_weights(P, R):
     R.check(renorm, "SIMPLEX.map", f.key, "weights /= weights.sum()", "adapted weights renormalised to sum to one", "MAP-adapted weights are not renormalised by their own sum: they leave the simplex")
 
 
+def check_initial_weights(P, R):
+    """The default mixture weights of a new machine are uniform: n entries of 1/n (they sum to one before any training)."""
+    f = P.func("gmm:GMMMachine.__init__")
+    R.analysed(f)
+    n = 0
+    for st, t, v, k in stores(f):
+        if not (isinstance(t, ast.Attribute) and t.attr == "weights" and isinstance(t.value, ast.Name) and t.value.id == f.self_name and isinstance(v, ast.Call)):
+            continue
+        fn = src(v.func).split(".")[-1]
+        if fn not in ("full", "ones", "full_like"):
+            continue
+        n += 1
+        if fn == "full":
+            fill = next((kw.value for kw in v.keywords if kw.arg == "fill_value"), v.args[1] if len(v.args) > 1 else None)
+            shape = v.args[0] if v.args else next((kw.value for kw in v.keywords if kw.arg == "shape"), None)
+            cnt = shape.elts[0] if isinstance(shape, ast.Tuple) and len(shape.elts) == 1 else shape
+            ok = isinstance(fill, ast.BinOp) and isinstance(fill.op, ast.Div) and const_value(fill.left) in (1, 1.0) and cnt is not None and src(fill.right) == src(cnt)
+            R.check(ok, "SIMPLEX.init", f.key, src(v)[:70], "n weights of 1/n", f"the default weights are {src(v)[:60]}: {src(cnt) if cnt is not None else '?'} entries of {src(fill) if fill is not None else '?'} do not sum to one", st.lineno)
+        else:
+            R.undecided("SIMPLEX.init", f.key, src(v)[:70], "default weights not in the recognised uniform form np.full((n,), 1 / n)")
+    R.floor("SIMPLEX.init default-weight stores", n, 1)
+
+
 def run(P, R, tier):
+    check_initial_weights(P, R)
     n = guard.check_divisions(P, R, ROOTS, MODULES)
     R.floor("GUARD.div sites", n, 20)
     # weights on the simplex: count/total (pure, intensive) in the ML step, renormalised blend in the MAP step
